@@ -67,9 +67,14 @@ OpenFlowChecks(s, t, u, feeAsset, fee) ==
         \A a \in Rewards : t.col[a] -- s.col[a] = (IF a = feeAsset THEN fee ELSE Zero)>> >>
 ExpandFlowChecks(s, t, id) ==
   LET f0 == FlowById(s, id)  f1 == FlowById(t, id) IN
+  \* a flow older than the expansion limit is re-based by the expansion (claimed := 0, funded := what was left), so the
+  \* clause speaks about funded minus claimed, which the tokens received must raise by exactly their amount
   << <<"C12.expandflow.funded-grows-by-tokens-received",
-        f0.id # -1 /\ f1.id # -1 /\ f1.asset = f0.asset /\ f1.claimed = f0.claimed
-        /\ \A a \in Rewards : t.rbal[a] -- s.rbal[a] = (IF a = f0.asset THEN f1.funded -- f0.funded ELSE Zero)>>,
+        f0.id # -1 /\ f1.id # -1 /\ f1.asset = f0.asset /\ (f1.claimed = f0.claimed \/ f1.claimed = Zero)
+        /\ f0.claimed \preceq f0.funded /\ f1.claimed \preceq f1.funded
+        /\ (f0.funded -- f0.claimed) \preceq (f1.funded -- f1.claimed)
+        /\ \A a \in Rewards : t.rbal[a] -- s.rbal[a] =
+              (IF a = f0.asset THEN (f1.funded -- f1.claimed) -- (f0.funded -- f0.claimed) ELSE Zero)>>,
      <<"C12.expandflow.other-flows-untouched",
         \A i \in DOMAIN s.flows : s.flows[i].id # id => FlowById(t, s.flows[i].id) = s.flows[i]>> >>
 CloseFlowChecks(s, t, caller, id, callerIsOwner) ==
